@@ -22,3 +22,4 @@ Lemma now_guard_remove_flow : sw_guard_remove_flow sw_now = true.        Proof. 
 Lemma now_guard_switch_default : sw_guard_switch_default sw_now = true.  Proof. reflexivity. Qed.
 Lemma now_guard_load : sw_guard_load sw_now = true.                      Proof. reflexivity. Qed.
 Lemma now_seed_wraps : sw_ovf_panics sw_now = false.                     Proof. reflexivity. Qed.
+Lemma now_no_alias : sw_alias_current sw_now = false.                   Proof. reflexivity. Qed.
